@@ -166,6 +166,28 @@ fn crafted_inference_programs() -> Vec<String> {
     ] {
         v.push(prog.to_string());
     }
+    // the built-ins have their arity: surplus arguments are not dropped
+    for extra in ["a", "b", "nothing", "n + 1u8", "3u8", "true", "[(1u8, 2u8); 2]"] {
+        v.push(format!("pub fn main(a: [(u8, u8); 2], b: [(u8, u8); 2]) -> u8 {{ let mut n = 0u8; for (p, q) in join_iter(a, b, {extra}) {{ n = n + p.1; }} n }}\n"));
+        v.push(format!("pub fn main(a: [(u8, u8); 2], b: [(u8, u8); 2]) -> u8 {{ let mut n = 0u8; for (p, q) in join_iter(a, b, {extra}, {extra}) {{ n = n + q.1; }} n }}\n"));
+        v.push(format!("pub fn main(a: [u8; 2], b: [u8; 2]) -> [(bool, u8); 3] {{ let n = 0u8; join(a, b, {extra}) }}\n"));
+    }
+    for call in ["join_iter(a)", "join_iter()", "join_iter(a, )"] {
+        v.push(format!("pub fn main(a: [(u8, u8); 2], b: [(u8, u8); 2]) -> u8 {{ let mut n = 0u8; for (p, q) in {call} {{ n = n + 1u8; }} n }}\n"));
+    }
+    for call in ["join(a)", "join()"] {
+        v.push(format!("pub fn main(a: [u8; 2], b: [u8; 2]) -> [(bool, u8); 3] {{ {call} }}\n"));
+    }
+    // type cycles that are reached from a definition outside of them (also when no function uses them)
+    for defs in [
+        "struct Wrapper { list: List }\nenum List { Nil, Cons(Node) }\nenum Node { Leaf(u8), Inner(List) }\n",
+        "struct Outer { e: E1 }\nenum E1 { A(E2) }\nenum E2 { B(E3) }\nenum E3 { C(E1), D }\n",
+        "struct Wrapper { t: (u8, [Tree; 2]) }\nenum Tree { Leaf(u8), Fork(Pair) }\nenum Pair { P(Tree, Tree) }\n",
+        "enum Top { T(Wrapper) }\nstruct Wrapper { list: List }\nenum List { Nil, Cons(Node) }\nenum Node { Leaf(u8), Inner(List) }\n",
+    ] {
+        v.push(format!("{defs}pub fn main(x: u8) -> u8 {{ x }}\n"));
+        v.push(format!("{defs}pub fn main(x: u8) -> u8 {{ let l = List::Nil; x }}\n"));
+    }
     // array sizes written as const expressions with exactly one ill-typed operand (an unknown name, a
     // const of another type, a literal with another suffix): every operand has to be a usize
     for (bad, decl) in [("M", ""), ("B", "const B: u8 = 1u8;\n"), ("T", "const T: bool = true;\n"), ("I", "const I: i64 = 1i64;\n"), ("1u8", ""), ("true", "")] {
